@@ -2,6 +2,9 @@
 """Intake + evaluation of an independently written breaking change (seeded change).
   tools/seeded.py intake <wt_dir> <PROP> <name>   confirm (suite passes with change; demo fails with / passes without), copy to /verif/seeded/<name>/
   tools/seeded.py eval <name> [--runs N]          apply to /repo, run the property's quick check, undo; record in meta.json
+  tools/seeded.py intake-keep <wt_dir> <PROP> <name>   a property-PRESERVING change (false-alarm probe): suite passes with it, demo passes with AND
+                                                  without it; copied to /verif/preserving/<name>/
+  tools/seeded.py eval-keep <name> [CHECKS...]    apply, run the quick check of the property (and of the other given checks), undo; every one must stay clean
 """
 import json, os, shutil, subprocess, sys, time
 os.environ["VERIF_SCRATCH_EVIDENCE"] = "1"  # sensitivity runs never touch the committed evidence files
@@ -10,7 +13,7 @@ VERIF = os.path.dirname(os.path.dirname(os.path.abspath(__file__)))
 def sh(cmd, cwd=None, env=None, timeout=1800):
     return subprocess.run(cmd, shell=True, cwd=cwd, env=env, capture_output=True, text=True, timeout=timeout)
 
-def intake(wt, prop, name):
+def intake(wt, prop, name, keep=False):
     env = dict(os.environ, PYTHONPATH=wt)
     demo = [f for f in os.listdir(wt) if f.startswith("demo_") and f.endswith(".py")][0]
     assert sh("git diff --quiet -- aiohomekit", cwd=wt).returncode != 0, "change not applied in worktree"
@@ -23,21 +26,50 @@ def intake(wt, prop, name):
     r_without = sh(run_demo, cwd=wt, env=env)
     sh("git apply patch.diff", cwd=wt)
     def failed(r): return r.returncode != 0
-    ok = suite_ok and failed(r_with) and not failed(r_without)
+    ok = suite_ok and (failed(r_with) != keep) and not failed(r_without)
     print("suite with change:", r_suite.stdout.strip().splitlines()[-1] if r_suite.stdout.strip() else r_suite.stderr[-200:])
     print("demo with change  :", "FAILS" if failed(r_with) else "passes", "|", r_with.stdout.strip().splitlines()[-1:] )
     print("demo without      :", "FAILS" if failed(r_without) else "passes", "|", r_without.stdout.strip().splitlines()[-1:])
     if not ok:
         print("NOT CONFIRMED"); return 1
-    dst = os.path.join(VERIF, "seeded", name)
+    dst = os.path.join(VERIF, "preserving" if keep else "seeded", name)
     os.makedirs(dst, exist_ok=True)
     for f in ("patch.diff", demo, "notes.md"):
         if os.path.exists(os.path.join(wt, f)): shutil.copy(os.path.join(wt, f), dst)
-    meta = {"property": prop, "name": name, "demo": demo, "confirmed": {"suite_with_change": r_suite.stdout.strip().splitlines()[-1], "demo_with_change": "fails", "demo_without_change": "passes",
+    meta = {"property": prop, "name": name, "demo": demo, "confirmed": {"suite_with_change": r_suite.stdout.strip().splitlines()[-1], "demo_with_change": "passes" if keep else "fails", "demo_without_change": "passes",
             "how": f"in scratch worktree {wt} with PYTHONPATH set to it: pytest suite; demo with the change; git checkout -- aiohomekit; demo; git apply patch.diff"},
             "needs_to_manifest": "see notes.md", "repo_base": sh("git rev-parse --short HEAD", cwd=wt).stdout.strip()}
+    if keep:
+        meta["expect"] = "clean"
+        meta.pop("needs_to_manifest", None)
     json.dump(meta, open(os.path.join(dst, "meta.json"), "w"), indent=1)
     print("CONFIRMED ->", dst); return 0
+
+
+def evaluate_keep(name, checks):
+    """a property-preserving change: every given check must stay clean (exit 0, no VIOLATION line) with it applied"""
+    dst = os.path.join(VERIF, "preserving", name)
+    meta = json.load(open(os.path.join(dst, "meta.json")))
+    if sh("git -C /repo status --porcelain --untracked-files=no").stdout.strip():
+        print("refusing: /repo dirty"); return 2
+    a = sh(f"git -C /repo apply {dst}/patch.diff")
+    if a.returncode != 0:
+        print("patch does not apply:", a.stderr); return 2
+    try:
+        for c in [meta["property"]] + [c for c in checks if c != meta["property"]]:
+            t = time.time()
+            cmd = f"./check.py {c} --tier quick"
+            r = sh(cmd, cwd=VERIF, timeout=3000)
+            clean = r.returncode == 0 and "VIOLATION" not in r.stdout
+            sigs = [l.split(":")[1].strip() for l in r.stdout.splitlines() if l.startswith("violation:")]
+            meta.setdefault("evaluations", []).append({"cmd": cmd, "exit": r.returncode, "clean": clean, "signatures": sigs[:6], "wall_s": round(time.time() - t, 1),
+                                                       "verif_commit": sh("git rev-parse --short HEAD", cwd=VERIF).stdout.strip()})
+            print(name, c, "stayed clean" if clean else ("HARNESS-ERROR" if r.returncode == 2 else "FALSE ALARM"), sigs[:4], f"{time.time()-t:.0f}s")
+            if r.returncode == 2: print(r.stdout[-1500:], r.stderr[-800:])
+        json.dump(meta, open(os.path.join(dst, "meta.json"), "w"), indent=1)
+    finally:
+        sh("git -C /repo checkout -- .")
+    return 0
 
 def evaluate(name, runs=None, tier="quick"):
     dst = os.path.join(VERIF, "seeded", name)
@@ -65,5 +97,7 @@ def evaluate(name, runs=None, tier="quick"):
 
 if __name__ == "__main__":
     if sys.argv[1] == "intake": sys.exit(intake(sys.argv[2], sys.argv[3], sys.argv[4]))
+    if sys.argv[1] == "intake-keep": sys.exit(intake(sys.argv[2], sys.argv[3], sys.argv[4], keep=True))
+    if sys.argv[1] == "eval-keep": sys.exit(evaluate_keep(sys.argv[2], sys.argv[3:]))
     runs = int(sys.argv[sys.argv.index("--runs") + 1]) if "--runs" in sys.argv else None
     sys.exit(evaluate(sys.argv[2], runs))
